@@ -34,6 +34,26 @@ func (f *linForm) add(g *linForm, coef int64) {
 		}
 	}
 }
+// addSum adds sum(field: inner): split term by term, the constant part counted once per element
+// (sum(F: a + k) = sum(F: a) + k*len(F)), so that a loop that adds 4 + x.len() per element and one that adds x.len() after
+// 4*len(F) read the same.
+func (f *linForm) addSum(field string, inner *linForm, coef int64) {
+	for a, ca := range inner.Atoms {
+		k := "sum(" + field + ": " + a + ")"
+		f.Atoms[k] += coef * ca
+		if f.Atoms[k] == 0 {
+			delete(f.Atoms, k)
+		}
+	}
+	if inner.K != 0 {
+		k := "len(" + field + ")"
+		f.Atoms[k] += coef * inner.K
+		if f.Atoms[k] == 0 {
+			delete(f.Atoms, k)
+		}
+	}
+}
+
 func (f *linForm) String() string {
 	var ks []string
 	for k := range f.Atoms {
@@ -403,7 +423,7 @@ func (e *lenEval) stmts(list []ast.Stmt, into *linForm) (returned bool) {
 			inner := newForm()
 			e.stmts(st.Body.List, inner)
 			e.loopVar = nil
-			into.Atoms["sum("+n+": "+inner.String()+")"] += 1
+			into.addSum(n, inner, 1)
 		case *ast.SwitchStmt:
 			// gateway union
 			tag, ok := "", false
@@ -510,7 +530,8 @@ func expectedLenTerm(k, field string) (f *linForm, exact bool, alt *linForm) {
 		f.K = 1
 		f.Atoms["len("+field+")"] = 1
 	case "cs+":
-		f.Atoms["sum("+field+": len(x) + 1)"] = 1
+		f.Atoms["sum("+field+": len(x))"] = 1
+		f.Atoms["len("+field+")"] = 1
 	case "C":
 		f.Atoms["dnl("+field+",true)"] = 1
 	case "N":
@@ -540,10 +561,12 @@ func expectedLenTerm(k, field string) (f *linForm, exact bool, alt *linForm) {
 		f.Atoms["bm("+field+")"] = 1
 	case "opt":
 		exact = false
-		f.Atoms["sum("+field+": len(x.pack()) + 4)"] = 1
+		f.Atoms["sum("+field+": len(x.pack()))"] = 1
+		f.Atoms["len("+field+")"] = 4
 	case "svc":
 		exact = false
-		f.Atoms["sum("+field+": x.len() + 4)"] = 1
+		f.Atoms["sum("+field+": x.len())"] = 1
+		f.Atoms["len("+field+")"] = 4
 	case "apl":
 		exact = false
 		f.Atoms["sum("+field+": x.len())"] = 1
